@@ -299,6 +299,7 @@ class LayerSet(BaseObject):
             layer = self.defaultLayer
             glyphSet = writer.getGlyphSet(layerName=None, defaultLayer=True, validateRead=self.ufoLibReadValidate, validateWrite=self.ufoLibWriteValidate)
             layer.save(glyphSet, saveAs=saveAs, progressBar=progressBar)
+            layer.dirty = False
             if progressBar is not None:
                 progressBar.update()
         else:
